@@ -64,7 +64,7 @@ def build(inp):
         return [[int(k), n.merkle_root()] for k, n in get_target_history(hist, g)]
     o_h = attempt(th, anyerr=True)
     a, b = tree_py(inp["a"]), tree_py(inp["b"])
-    o_d = [[x.merkle_root(), y.merkle_root()] for x, y in get_diff(a, b)]
+    o_d = attempt(lambda: [[x.merkle_root(), y.merkle_root()] for x, y in get_diff(a, b)], anyerr=True)
 
     def graft():
         # positions of the reported pairs, found by walking both trees the way the diff is specified
